@@ -7,7 +7,7 @@
 (* scenario is reported once through PrintT as a JSON object.               *)
 EXTENDS Integers, Sequences, FiniteSets, TLC, Json
 
-CONSTANTS MinDelay, MaxRADelay, BackoffUnit, Retries, InitCap
+CONSTANTS MinDelay, MaxRADelay, BackoffUnit, Retries, InitCap, InitCount, Sec
 
 INSTANCE AdvReq
 
@@ -38,13 +38,13 @@ Step(mm, e) ==
     [] e.ev = "panic"   -> OnPanic(mm, e)
     [] OTHER            -> mm
 
-TInit == l = 1 /\ m = ReqInit(FALSE, 0, FALSE, FALSE) /\ sid = "" /\ nbad = 0
+TInit == l = 1 /\ m = ReqInit([unicast |-> FALSE, cfglife |-> 0, mon |-> FALSE, strict |-> FALSE, quiet |-> FALSE, miniv |-> 0, maxiv |-> 0]) /\ sid = "" /\ nbad = 0
 
 TNext ==
   /\ l <= Len(Trace)
   /\ LET e == Trace[l] IN
      /\ IF e.ev = "reset"
-        THEN /\ m' = ReqInit(e.unicast, e.cfglife, e.mode = "mon", e.strict)
+        THEN /\ m' = ReqInit([unicast |-> e.unicast, cfglife |-> e.cfglife, mon |-> e.mode = "mon", strict |-> e.strict, quiet |-> e.quiet, miniv |-> e.min, maxiv |-> e.max])
              /\ sid' = e.id
              /\ nbad' = nbad
         ELSE LET m2 == Step(m, e) IN
